@@ -49,6 +49,9 @@ var c19Corpus = []string{
 	`x = {hv2({1: 1, 2: 2, 3: 3}): 1, hv2({1: 1, 2: 2, 3: 4}): 2}; return len(x);`,
 	`function f(h) { return len(h); } x = {f({"a": 1, "b": 2, "c": 3}): hv2("p"), f({"a": 1, "b": 2, "d": 4}): hv2("q"), f({"z": 1}): hv2("r")}; return string(x);`,
 	`x = [{"b": hv2(1), "a": hv2(2)}, {"d": {"y": hv2(3), "x": hv2(4)}, "c": hv2(5)}]; return string(x);`,
+	`return [replace(S, "[", "-"), replace(S, "(", "x"), match(S, "["), S ~= /l+/];`,
+	`function a() { return 2 - 10; } function b() { return 300 * 300; } function c() { return 1 - 70000; } function d() { return 65534 + 5; } function e() { return 0 - 1; } return a() + b() + c() + d() + e() + (3 - 9);`,
+	`hv($A, A, $S, S, $Name, Name); return string($A) + string(Name);`,
 	`function f1() { return 1; } function f2() { return 2; } function f3() { return 3; } function g1() { return f1(); } hv(f1() + f2()); return f9() + g7();`,
 	`hv(Retries, Label, Ratio, Next, M); return string(Retries) + string(Label) + string(M);`,
 	`x = 1 + 2 * 3; y = 1 == 1; if (2 > 1) { z = "a" + "b"; } function k() { return 10 / 5 + 1; } return k() + x;`,
@@ -145,7 +148,7 @@ func c19ObjectValue(c *verifsim.Chooser) (interface{}, string) {
 		// keys that differ only in case, and keys that differ only by type
 		// once printed: whichever lookup is not exact must not depend on
 		// the order the keys come out of a Go map
-		return map[string]interface{}{"ID": 1, "Id": 2, "iD": 3, "URL": "upper", "Url": "mixed", "a": 10, "A": 20, "items": []interface{}{1}, "Items": []interface{}{1, 2},
+		return map[string]interface{}{"$A": "dollar-A", "$S": "dollar-S", "$Name": "dollar", "Name": "plain", " A": "space-A", "A ": "A-space", "ID": 1, "Id": 2, "iD": 3, "URL": "upper", "Url": "mixed", "a": 10, "A": 20, "items": []interface{}{1}, "Items": []interface{}{1, 2},
 			"M": map[string]interface{}{"Key": 1, "KEY": 2, "key": 3, "kEy": 4}, "S": "x", "s": "y", "B": 1, "b": 2, "C": 3}, "map with case-variant keys"
 	default:
 		return map[string]interface{}{"M": map[string]interface{}{"1": "s", "one": 1}, "A": 1.0, "B": 2.0, "C": 3.0, "S": "héllo", "Items": []interface{}{1.0, 2.0}}, "json-shaped"
